@@ -24,6 +24,8 @@ def _loaded(ev, k):
 
 
 def _nontrivial(ev):
+    if ev.get("ev") == "SchemaFile":
+        return _loaded(ev, "S")
     if ev.get("ev") != "SchemaSyn":
         return False
     STATS["schemas"] += 1
@@ -57,11 +59,33 @@ def _mutate(ev):
     return ev
 
 
+def _files(fam, tier, wd, seed):
+    """T: every schema file of the repository (Cedar and JSON syntax) through the library's translations"""
+    import os
+    import vlib
+    cases = []
+    for root, dirs, files in os.walk(vlib.REPO):
+        dirs[:] = [d for d in dirs if d not in ("target", ".git")]
+        for f in sorted(files):
+            path = os.path.join(root, f)
+            if f.endswith(".cedarschema"):
+                cases.append(dict(file=path, syntax="cedar"))
+            elif f.endswith(".cedarschema.json") or (f.endswith(".json") and "schema" in f.lower() and "entit" not in f.lower()):
+                cases.append(dict(file=path, syntax="json"))
+    cases.sort(key=lambda c: c["file"])
+    cpath = os.path.join(wd, "files.cases.ndjson")
+    tpath = os.path.join(wd, "files.trace.ndjson")
+    vlib.write_ndjson(cpath, cases)
+    vlib.conform("replay", "schemasyn", cpath, tpath)
+    return [(tpath, "T:files", "Trace_SchemaSyntax.tla")]
+
+
 C09 = dict(
+    extra_traces=_files,
     family="schemasyn", trace_module="Trace_SchemaSyntax.tla",
     models=[dict(name="mc_schemasyn", module="MC_SchemaSyntax.tla",
                  cfg=dict(quick="MC_SchemaSyntax.cfg", thorough="MC_SchemaSyntax_thorough.cfg"), cases=_case)],
-    nontrivial=_nontrivial, key=lambda ev: ev.get("s"),
+    nontrivial=_nontrivial, key=lambda ev: ev.get("s") or ev.get("file"),
     mutate=_mutate, chunk=450, case_of_event=_case_of_event, known_finding_id="C09-to_cedarschema-silently-lossy",
     extra_coverage=dict(acceptance=STATS),
     rule="G: MC_SchemaSyntax (TLC-enumerated, complete for its tables): 29 layouts of a subject name X in {A, String, Long, Bool, ipaddr} (declared in "
